@@ -648,6 +648,48 @@ fn dump_geom(_o: &Opts, idx: usize, c: &Value) -> Value {
             out["conf_box"] = box6(&w);
             out
         }
+        "boxobj" => {
+            // one box OBJECT under in-place operations (spec/geom/GenObj.tla), as pydrv/run.py does it
+            let fin = jget(c, "final");
+            let ops: Vec<&str> = jarr(c, "ops").iter().map(|o| o.as_str().expect("op")).collect();
+            let (mut x, mut h, mut k) = (jint(fin, "x"), jint(fin, "h"), jint(fin, "k"));
+            for o in ops.iter().rev() {
+                match *o {
+                    "turn" => k -= 1,
+                    "move" => x -= 2,
+                    "resize" => h = if h == 2 { 4 } else { 2 },
+                    _ => {}
+                }
+            }
+            let mut u = Universal2DBox::new((x as f64 / 2.0) as f32, (jint(fin, "y") as f64 / 2.0) as f32, Some((k as f64 * PI / 2.0) as f32),
+                                            (jint(fin, "w") as f64 / h as f64) as f32, (h as f64 / 2.0) as f32);
+            let mut steps: Vec<Value> = vec![];
+            for o in ops.iter() {
+                match *o {
+                    "gen" => {
+                        u.gen_vertices();
+                    }
+                    "turn" => {
+                        k += 1;
+                        u.rotate_mut((k as f64 * PI / 2.0) as f32);
+                    }
+                    "move" => u.xc = ((u.xc as f64) + 1.0) as f32,
+                    "resize" => {
+                        let width = u.aspect as f64 * u.height as f64;
+                        let nh = if (u.height as f64 - 1.0).abs() < 1e-6 { 2.0 } else { 1.0 };
+                        u.height = nh as f32;
+                        u.aspect = (width / nh) as f32;
+                    }
+                    _ => {}
+                }
+                steps.push(json!({"op": o, "box": box6(&u), "vertices": points(&vertices(&u)), "area": num(u.area()), "radius": num(u.get_radius())}));
+            }
+            let pb = jget(c, "probe");
+            let p = Universal2DBox::new((jint(pb, "x") as f64 / 2.0) as f32, (jint(pb, "y") as f64 / 2.0) as f32, Some((jint(pb, "k") as f64 * PI / 2.0) as f32),
+                                        (jint(pb, "w") as f64 / jint(pb, "h") as f64) as f32, (jint(pb, "h") as f64 / 2.0) as f32);
+            let (up, pu) = (clip(&u, &p), clip(&p, &u));
+            json!({"kind": kind, "steps": steps, "area_up": num64(ring_area(&up)), "area_pu": num64(ring_area(&pu))})
+        }
         other => json!({"skip": format!("kind {} has no Python counterpart", other)}),
     }
 }
